@@ -20,35 +20,32 @@ size_t xv_expected_rs; uint64_t xv_ev;
 #include "../scq/ring_stub.h"
 
 typedef uintptr_t marked_ptr; typedef uintptr_t guard_ptr;     /* node handles: 0 = null, k+1 = pool[k] */
-typedef struct { uint64_t v; _Bool alive; _Bool moved; } T;
+typedef struct { uint64_t v; _Bool alive; _Bool moved; _Bool cell; unsigned nc, nd, nm; } T;   /* cell: storage cell of a node; nc/nd/nm: ghost counters of placement-new / ~T / move-out on this cell */
 struct node { T _storage[CAP]; struct ring _allocated_queue; struct ring _free_queue; marked_ptr _next;
               size_t xv_storage_words; _Bool xv_live; unsigned xv_deleted, xv_retired; };
 struct nq { marked_ptr _tail; marked_ptr _head; };
 struct node pool[NP]; struct nq* g_self; _Bool g_in_dtor;
-unsigned g_destroyed[NP][CAP], g_constructed[NP][CAP], g_movedout[NP][CAP]; unsigned g_ext_moved_out, g_ext_assigned;
+unsigned g_ext_moved_out, g_ext_assigned;
 uint64_t g_t_construct, g_t_destroy, g_t_moveout;
 
 /* ---- element model */
-static _Bool is_cell(T* c) { return __CPROVER_same_object(c, pool); }
-static unsigned cell_node(T* c) { return (unsigned)(((char*)c - (char*)pool) / sizeof(struct node)); }
-static unsigned cell_idx(T* c) { return (unsigned)(c - pool[cell_node(c)]._storage); }
 static void t_construct_move(T* cell, T* src) {
-  XV_OBL("nq.own.exactly_once", is_cell(cell) && !cell->alive);
+  XV_OBL("nq.own.exactly_once", cell->cell && !cell->alive);
   XV_OBL("nq.own.exactly_once", src->alive && !src->moved);
   cell->v = src->v; cell->alive = 1; cell->moved = 0; src->moved = 1;
-  if (!is_cell(src)) g_ext_moved_out++;
-  g_constructed[cell_node(cell)][cell_idx(cell)]++; g_t_construct = ++xv_ev;
+  if (!src->cell) g_ext_moved_out++;
+  cell->nc++; g_t_construct = ++xv_ev;
 }
 static void t_destroy(T* cell) {
-  XV_OBL("nq.own.exactly_once", is_cell(cell) && cell->alive);
-  cell->alive = 0; g_destroyed[cell_node(cell)][cell_idx(cell)]++; g_t_destroy = ++xv_ev;
+  XV_OBL("nq.own.exactly_once", cell->cell && cell->alive);
+  cell->alive = 0; cell->nd++; g_t_destroy = ++xv_ev;
 }
 static void t_move_assign(T* dst, T* src) {
   XV_OBL("nq.own.exactly_once", src->alive && !src->moved);
   XV_OBL("nq.own.exactly_once", dst->alive);
   dst->v = src->v; dst->moved = 0; src->moved = 1;
-  if (is_cell(src)) { g_movedout[cell_node(src)][cell_idx(src)]++; g_t_moveout = ++xv_ev; }
-  if (!is_cell(dst)) g_ext_assigned++;
+  if (src->cell) { src->nm++; g_t_moveout = ++xv_ev; }
+  if (!dst->cell) g_ext_assigned++;
 }
 #define XV_CONSTRUCT_MOVE(cell, src) t_construct_move(&(cell), &(src))
 #define XV_DESTROY(cell) t_destroy(&(cell))
@@ -63,23 +60,24 @@ static void t_move_assign(T* dst, T* src) {
 #define XV_INIT__allocated_queue(self, cap, rs, tag) ring_ctor(&(self)->_allocated_queue, (cap), (rs), (tag))
 #define XV_INIT__free_queue(self, cap, rs, tag) ring_ctor(&(self)->_free_queue, (cap), (rs), (tag))
 /* ---- guards and node handles */
+static struct node* node_at(uintptr_t h) { return h == 1 ? &pool[0] : h == 2 ? &pool[1] : &pool[2]; }   /* handle -> node (case split instead of pointer arithmetic on a symbolic handle) */
 guard_ptr g_protected; uint64_t g_acq_clock; unsigned g_acquires;
 static struct node* gderef(guard_ptr n) {
-  XV_OBL("nq.guard.protected", n != 0 && n <= NP && n == g_protected && pool[n - 1].xv_live);   /* only a protected, not yet freed node is accessed */
-  return &pool[n - 1];
+  XV_OBL("nq.guard.protected", n != 0 && n <= NP && n == g_protected && node_at(n)->xv_live);   /* only a protected, not yet freed node is accessed */
+  return node_at(n);
 }
 static struct node* nderef(marked_ptr p) {
-  XV_OBL("nq.guard.protected", p != 0 && p <= NP && pool[p - 1].xv_live);                        /* private (unpublished) node or destructor */
-  return &pool[p - 1];
+  XV_OBL("nq.guard.protected", p != 0 && p <= NP && node_at(p)->xv_live);                        /* private (unpublished) node or destructor */
+  return node_at(p);
 }
 #define GDEREF(n) gderef(n)
 #define NDEREF(p) nderef(p)
 #define MP_get(p) (p)
 #define G_acquire(n, cell, mo) ((n) = A_LOAD(cell, mo), g_protected = (n), g_acq_clock = xv_clock, g_acquires++, (void)0)
 static void g_reclaim(guard_ptr* n) {
-  XV_OBL("nq.pop.retire_once", *n != 0 && *n == g_protected && pool[*n - 1].xv_live && pool[*n - 1].xv_retired == 0);
-  XV_OBL("nq.pop.retire_once", g_self->_head != *n && g_self->_tail != *n);      /* unlinked: neither head nor tail can hand it out again */
-  pool[*n - 1].xv_retired++; *n = 0; g_protected = 0;
+  XV_OBL("nq.pop.retire_once", *n != 0 && *n == g_protected && node_at(*n)->xv_live && node_at(*n)->xv_retired == 0);
+  XV_OBL("nq.pop.retire_once", g_self->_head != *n);      /* _head has been swung away (a lagging _tail may still name the node: the producer that linked its successor still protects it) */
+  node_at(*n)->xv_retired++; *n = 0; g_protected = 0;
 }
 #define G_reclaim(n) g_reclaim(&(n))
 static void nq_node_ctor(struct node* self); static void nq_node_ctor_value(struct node* self, T* value_p); static void nq_node_dtor(struct node* self);
@@ -92,13 +90,13 @@ static marked_ptr new_node(T* value) {
   return k + 1;
 }
 static void delete_node(marked_ptr h) {
-  XV_OBL("nq.node.delete_once", h != 0 && h <= NP && pool[h - 1].xv_live && pool[h - 1].xv_retired == 0);
+  XV_OBL("nq.node.delete_once", h != 0 && h <= NP && node_at(h)->xv_live && node_at(h)->xv_retired == 0);
   if (!g_in_dtor) {                       /* outside the queue destructor only a never-published node may be deleted */
     XV_OBL("nq.node.delete_once", g_self->_head != h && g_self->_tail != h);
     for (unsigned i = 0; i < NP; i++) XV_OBL("nq.node.delete_once", !(pool[i].xv_live && pool[i]._next == h));
   }
-  nq_node_dtor(&pool[h - 1]);
-  pool[h - 1].xv_live = 0; pool[h - 1].xv_deleted++;
+  nq_node_dtor(node_at(h));
+  node_at(h)->xv_live = 0; node_at(h)->xv_deleted++;
 }
 #define XV_NEW_NODE() new_node(0)
 #define XV_NEW_NODE_V(v) new_node(&(v))
@@ -125,7 +123,7 @@ static void mon_cas(void* addr, uint64_t e, uint64_t d, _Bool ok, int o) {
     XV_OBL("nq.commit", XV_IS_RELEASE(o));
   } else {
     /* link CAS: on the protected node's _next, expected null */
-    XV_OBL("nq.commit", g_protected != 0 && addr == (void*)&pool[g_protected - 1]._next && e == 0 && XV_IS_RELEASE(o));
+    XV_OBL("nq.commit", g_protected != 0 && addr == (void*)&node_at(g_protected)->_next && e == 0 && XV_IS_RELEASE(o));
   }
 }
 #endif
@@ -150,7 +148,7 @@ static void havoc_node(unsigned k, unsigned s) {     /* pool[k] from input set s
   n->_next = 0; n->xv_live = 1; n->xv_deleted = 0; n->xv_retired = 0; n->xv_storage_words = CAP;
 }
 static void reset_ghost(void) {
-  for (unsigned k = 0; k < NP; k++) for (unsigned i = 0; i < CAP; i++) { g_destroyed[k][i] = 0; g_constructed[k][i] = 0; g_movedout[k][i] = 0; }
+  for (unsigned k = 0; k < NP; k++) for (unsigned i = 0; i < CAP; i++) { pool[k]._storage[i].nd = 0; pool[k]._storage[i].nc = 0; pool[k]._storage[i].nm = 0; pool[k]._storage[i].cell = 1; }
   g_ext_moved_out = 0; g_ext_assigned = 0; xv_ev = 0; g_t_construct = 0; g_t_destroy = 0; g_t_moveout = 0; g_protected = 0; g_acquires = 0; g_in_dtor = 0;
   xv_expected_rs = calc_remap_shift(CAP); in_cap = CAP;
 }
@@ -170,14 +168,15 @@ static _Bool inv_node(struct node* n) {
   }
   return n->xv_storage_words == CAP;
 }
-static unsigned total(unsigned (*g)[CAP]) { unsigned s = 0; for (unsigned k = 0; k < NP; k++) for (unsigned i = 0; i < CAP; i++) s += g[k][i]; return s; }
+enum { g_constructed, g_destroyed, g_movedout };
+static unsigned total(int which) { unsigned s = 0; for (unsigned k = 0; k < NP; k++) for (unsigned i = 0; i < CAP; i++) s += which == g_constructed ? pool[k]._storage[i].nc : which == g_destroyed ? pool[k]._storage[i].nd : pool[k]._storage[i].nm; return s; }
 
 /* ---- node constructors */
 void h_node_ctor(void) {
   reset_ghost(); for (unsigned k = 0; k < NP; k++) havoc_dead(k);
-  T value; value.v = in_v = nondet_u64(); value.alive = 1; value.moved = 0; _Bool with_value = nondet_bool();
+  T value; value.v = in_v = nondet_u64(); value.alive = 1; value.moved = 0; value.cell = 0; _Bool with_value = nondet_bool();
   marked_ptr h = with_value ? new_node(&value) : new_node(0);
-  struct node* n = &pool[h - 1];
+  struct node* n = node_at(h);
   XV_OBL("nq.node_ctor.inv", inv_node(n) && n->_next == 0 && !n->_allocated_queue.a.fin);
   if (with_value) {
     XV_OBL("nq.node_ctor.inv", n->_allocated_queue.a.cnt == 1 && n->_storage[n->_allocated_queue.a.vals[0]].v == in_v && value.moved);
@@ -193,7 +192,7 @@ void h_node_ctor(void) {
 void h_node_try_push(void) {
   reset_ghost(); havoc_node(0, 0); havoc_dead(1); havoc_dead(2); in_op = 3;
   struct node* n = &pool[0]; struct ring_abs* A = &n->_allocated_queue.a; struct ring_abs* F = &n->_free_queue.a;
-  T value; value.v = in_v = nondet_u64(); value.alive = 1; value.moved = 0;
+  T value; value.v = in_v = nondet_u64(); value.alive = 1; value.moved = 0; value.cell = 0;
   _Bool r = nq_node_try_push(n, &value);
   _Bool full = in_na[0] == CAP;
   XV_OBL("nq.push.appends", r == (!full && !in_fin[0]));
@@ -202,7 +201,7 @@ void h_node_try_push(void) {
   if (r) {
     unsigned e = (unsigned)in_perm[0][in_na[0]];
     XV_OBL("nq.push.appends", A->cnt == in_na[0] + 1 && A->vals[in_na[0]] == e && n->_storage[e].v == in_v && value.moved && !A->fin);
-    XV_OBL("nq.own.exactly_once", total(g_constructed) == 1 && g_constructed[0][e] == 1 && total(g_destroyed) == 0 && total(g_movedout) == 0 && g_ext_moved_out == 1);
+    XV_OBL("nq.own.exactly_once", total(g_constructed) == 1 && pool[0]._storage[e].nc == 1 && total(g_destroyed) == 0 && total(g_movedout) == 0 && g_ext_moved_out == 1);
     XV_OBL("nq.push.publish_order", n->_free_queue.t_deq < g_t_construct && g_t_construct < n->_allocated_queue.t_enq);
     XV_CANARY("node_push.stored");
   } else {
@@ -221,11 +220,11 @@ void h_node_try_push(void) {
 /* ---- steal_init_value on a freshly constructed private node */
 void h_steal(void) {
   reset_ghost(); for (unsigned k = 0; k < NP; k++) havoc_dead(k);
-  T value; value.v = in_v = nondet_u64(); value.alive = 1; value.moved = 0;
+  T value; value.v = in_v = nondet_u64(); value.alive = 1; value.moved = 0; value.cell = 0;
   marked_ptr h = new_node(&value);
-  nq_node_steal_init_value(&pool[h - 1], &value);
+  nq_node_steal_init_value(node_at(h), &value);
   XV_OBL("nq.push.rollback", value.v == in_v && !value.moved && value.alive);
-  XV_OBL("nq.push.rollback", inv_node(&pool[h - 1]) && pool[h - 1]._allocated_queue.a.cnt == 0);
+  XV_OBL("nq.push.rollback", inv_node(node_at(h)) && node_at(h)->_allocated_queue.a.cnt == 0);
   XV_OBL("nq.own.exactly_once", total(g_constructed) == 1 && total(g_destroyed) == 1 && total(g_movedout) == 1);
   g_self = 0; g_in_dtor = 1; delete_node(h);                              /* `delete next` afterwards destroys nothing */
   XV_OBL("nq.node_dtor.owned_only", total(g_destroyed) == 1);
@@ -238,7 +237,7 @@ void h_node_dtor(void) {
   nq_node_dtor(&pool[0]);
   for (unsigned i = 0; i < CAP; i++) {
     _Bool was = 0; for (unsigned k = 0; k < CAP; k++) if (k < in_na[0] && in_perm[0][k] == i) was = 1;
-    XV_OBL("nq.node_dtor.owned_only", g_destroyed[0][i] == (was ? 1 : 0) && !pool[0]._storage[i].alive && g_constructed[0][i] == 0 && g_movedout[0][i] == 0);
+    XV_OBL("nq.node_dtor.owned_only", pool[0]._storage[i].nd == (was ? 1 : 0) && !pool[0]._storage[i].alive && pool[0]._storage[i].nc == 0 && pool[0]._storage[i].nm == 0);
   }
   XV_OBL("nq.node_dtor.owned_only", pool[0]._allocated_queue.a.cnt == 0);
   if (in_na[0] == CAP) XV_CANARY("node_dtor.full"); if (in_na[0] == 0) XV_CANARY("node_dtor.empty"); if (in_fin[0]) XV_CANARY("node_dtor.finalized");
@@ -257,7 +256,7 @@ static unsigned content(struct nq* q, uint64_t* out) {          /* abstract queu
   unsigned len = 0; marked_ptr h = q->_head;
   for (unsigned s = 0; s < NP; s++) {
     if (h == 0 || h > NP) break;
-    struct node* n = &pool[h - 1]; struct ring_abs* A = &n->_allocated_queue.a;
+    struct node* n = node_at(h); struct ring_abs* A = &n->_allocated_queue.a;
     for (unsigned i = 0; i < CAP; i++) if (i < A->cnt) { out[len] = n->_storage[A->vals[i]].v; len++; }
     h = n->_next;
   }
@@ -267,9 +266,9 @@ static _Bool inv_queue(struct nq* q) {          /* list well-formed, every linke
   marked_ptr h = q->_head, last = 0;
   for (unsigned s = 0; s < NP; s++) {
     if (h == 0) break;
-    if (h > NP || !pool[h - 1].xv_live || pool[h - 1].xv_retired || !inv_node(&pool[h - 1])) return 0;
-    if (pool[h - 1]._next != 0 && !pool[h - 1]._allocated_queue.a.fin) return 0;
-    last = h; h = pool[h - 1]._next;
+    if (h > NP || !node_at(h)->xv_live || node_at(h)->xv_retired || !inv_node(node_at(h))) return 0;
+    if (node_at(h)->_next != 0 && !node_at(h)->_allocated_queue.a.fin) return 0;
+    last = h; h = node_at(h)->_next;
   }
   return h == 0 && last != 0 && q->_tail == last;
 }
@@ -277,7 +276,7 @@ static _Bool inv_queue(struct nq* q) {          /* list well-formed, every linke
 void h_push(void) {
   struct nq q; havoc_queue(&q); in_op = 0;
   uint64_t before[NP * CAP + 1], after[NP * CAP + 1]; unsigned nb = content(&q, before);
-  T value; value.v = in_v = nondet_u64(); value.alive = 1; value.moved = 0;
+  T value; value.v = in_v = nondet_u64(); value.alive = 1; value.moved = 0; value.cell = 0;
   nq_push(&q, value);
   unsigned na = content(&q, after);
   XV_OBL("nq.push.appends", na == nb + 1 && after[nb] == in_v);
@@ -298,7 +297,7 @@ void h_push(void) {
 void h_pop(void) {
   struct nq q; havoc_queue(&q); in_op = 1;
   uint64_t before[NP * CAP + 1], after[NP * CAP + 1]; unsigned nb = content(&q, before);
-  T result; result.v = nondet_u64(); result.alive = 1; result.moved = nondet_bool(); uint64_t r0 = result.v; _Bool m0 = result.moved;
+  T result; result.v = nondet_u64(); result.alive = 1; result.cell = 0; result.moved = nondet_bool(); uint64_t r0 = result.v; _Bool m0 = result.moved;
   _Bool r = nq_try_pop(&q, &result);
   unsigned na = content(&q, after);
   XV_OBL("nq.pop.empty_iff", r == (nb > 0));
@@ -318,7 +317,7 @@ void h_pop(void) {
   XV_OBL("nq.pop.hand_over", pool[0].xv_deleted + pool[1].xv_deleted + pool[2].xv_deleted == 0 && !pool[2].xv_live);
   if (skip0) { XV_OBL("nq.pop.threshold_reset", pool[0]._allocated_queue.th_set == 3 * CAP - 1 && pool[0]._allocated_queue.n_deq == 2); XV_CANARY("pop.node_drained"); }
   /* remaining list is well formed (the tail may still lag: pop never moves _tail) */
-  { struct node* hn = &pool[q._head - 1]; XV_OBL("nq.inv.preserved", inv_node(hn) && (in_L == 2 ? inv_node(&pool[1]) : 1) && q._tail == ((in_L == 2 && !in_lag) ? 2 : 1)); }
+  { struct node* hn = node_at(q._head); XV_OBL("nq.inv.preserved", inv_node(hn) && (in_L == 2 ? inv_node(&pool[1]) : 1) && q._tail == ((in_L == 2 && !in_lag) ? 2 : 1)); }
 }
 
 void h_ctor(void) {
@@ -326,7 +325,7 @@ void h_ctor(void) {
   q._head = nondet_uptr(); q._tail = nondet_uptr();
   nq_ctor(&q);
   uint64_t c[NP * CAP + 1];
-  XV_OBL("nq.ctor.inv", inv_queue(&q) && q._head == q._tail && content(&q, c) == 0 && !pool[q._head - 1]._allocated_queue.a.fin);
+  XV_OBL("nq.ctor.inv", inv_queue(&q) && q._head == q._tail && content(&q, c) == 0 && !node_at(q._head)->_allocated_queue.a.fin);
   XV_CANARY("ctor.done");
 }
 
@@ -335,7 +334,7 @@ void h_dtor(void) {
   nq_dtor(&q);
   for (unsigned k = 0; k < 2; k++) for (unsigned i = 0; i < CAP; i++) {
     _Bool was = 0; if (k < in_L) for (unsigned j = 0; j < CAP; j++) if (j < in_na[k] && in_perm[k][j] == i) was = 1;
-    XV_OBL("nq.dtor.owns", g_destroyed[k][i] == (was ? 1 : 0) && !pool[k]._storage[i].alive);
+    XV_OBL("nq.dtor.owns", pool[k]._storage[i].nd == (was ? 1 : 0) && !pool[k]._storage[i].alive);
   }
   XV_OBL("nq.dtor.owns", pool[0].xv_deleted == 1 && pool[1].xv_deleted == (in_L == 2 ? 1 : 0) && pool[2].xv_deleted == 0 && total(g_constructed) == 0 && total(g_movedout) == 0);
   if (in_L == 2) XV_CANARY("dtor.two_nodes"); else XV_CANARY("dtor.one_node");
@@ -346,7 +345,7 @@ void h_dtor(void) {
 _Bool env_on;
 void xv_env(void) {        /* other threads: may link a node behind any node, swing head/tail among the live nodes */
   if (!env_on) return;
-  if (nondet_bool()) { marked_ptr t = nondet_uptr(); if (t >= 1 && t <= 2 && pool[t - 1].xv_live) g_self->_tail = t; }
+  if (nondet_bool()) { marked_ptr t = nondet_uptr(); if (t >= 1 && t <= 2 && node_at(t)->xv_live) g_self->_tail = t; }
   if (nondet_bool() && pool[0]._next == 0 && pool[1].xv_live) { pool[0]._next = 2; pool[0]._allocated_queue.a.fin = 1; }
 }
 #endif
@@ -354,7 +353,7 @@ void h_push_int(void) {
 #if defined(XV_INT) && defined(XV_MONITOR)
   struct nq q; havoc_queue(&q); in_op = 0; XV_ASSUME(in_L == 1);
   havoc_node(1, 1);                       /* a node another producer is about to link */
-  T value; value.v = nondet_u64(); value.alive = 1; value.moved = 0;
+  T value; value.v = nondet_u64(); value.alive = 1; value.moved = 0; value.cell = 0;
   mon_cas_count = 0; env_on = 1;
   nq_push(&q, value);
   env_on = 0;
